@@ -167,10 +167,25 @@ class Config:
             numeric = bool(rng.integers(2))
             mapping = synth_io.write_lammps(self.src[1], self.src[0], lengths, symbols, cart, numeric_names=numeric)
             self.kw = {'temperature': float(rng.integers(300, 900)), 'time_step': float(rng.choice([1.0, 2.0]))}
+            if rng.integers(2):
+                # integer temperature, time step of two digits (so that moving a digit from one argument to the
+                # next gives another valid argument set)
+                self.kw = {'temperature': int(rng.integers(21, 99)), 'time_step': float(rng.choice([12.0, 25.0, 15.0]))}
             if numeric:
                 self.kw['type_mapping'] = mapping
             self.call = lambda cache=None, **extra: Trajectory.from_lammps(coords_file=self.src[0], cache=cache, **{'data_file': self.src[1], **self.kw, **extra})
             self.variants = [{'temperature': self.kw['temperature'] + 100}, {'time_step': self.kw['time_step'] * 2}, {'constant_lattice': False}]
+            if isinstance(self.kw['temperature'], int):
+                # argument sets whose values, written one after the other, read the same: (71, 12.0) / (711, 2.0)
+                T_, ts_ = str(self.kw['temperature']), str(self.kw['time_step'])
+                self.variants.append({'temperature': int(T_ + ts_[0]), 'time_step': float(ts_[1:])})
+                if T_[1] != '0':
+                    # ... and (".../data.txt", 71) / (".../data.txt7", 1)
+                    import shutil
+
+                    twin = self.src[1] + T_[0]
+                    shutil.copy(self.src[1], twin)
+                    self.variants.append({'data_file': twin, 'temperature': int(T_[1:])})
             # a data file with the same base name in another directory (other box): a different source
             os.makedirs(os.path.join(d, 'relaxed'), exist_ok=True)
             alt = os.path.join(d, 'relaxed', 'data.txt')
